@@ -28,6 +28,8 @@ Other == 2
 
 \* ------------------------------------------------------------------ pair lists
 K1 == 1  K2 == 2  K3 == 3  K0 == 0
+K5 == 5   \* name with a valid two-byte UTF-8 sequence inside   (encoder: key % 8 = 5)
+K6 == 6   \* name ending in a truncated three-byte sequence      (encoder: key % 8 = 6)
 PL == <<
   << PSpec(1, 1, 1, 1, K1) >>,
   << PSpec(4, 2, 4, 1, K1), PSpec(1, 0, 1, 0, K0) >>,
@@ -35,7 +37,9 @@ PL == <<
   << PSpec(1, 3, 4, 3, K3) >>,
   << >>,
   << PSpec(4, 5, 4, 6, K3) >>,
-  << PSpec(1, 0, 1, 3, K0), PSpec(1, 2, 1, 0, K2), PSpec(1, 0, 1, 1, K0) >>
+  << PSpec(1, 0, 1, 3, K0), PSpec(1, 2, 1, 0, K2), PSpec(1, 0, 1, 1, K0) >>,
+  << PSpec(1, 1, 1, 1, K2), PSpec(1, 3, 1, 0, K1) >>,                     \* last pair: empty value, name of 3 bytes
+  << PSpec(1, 4, 1, 1, K5), PSpec(4, 3, 1, 0, K6) >>                      \* multi-byte sequences inside / at the end of a name
 >>
 PLen(i) == LET RECURSIVE S(_)
                S(ps) == IF ps = <<>> THEN 0 ELSE HeadLen(Head(ps)) + Head(ps).n + Head(ps).v + S(Tail(ps))
@@ -77,8 +81,8 @@ W(items, pls, cut, tag, bounded) == [w |-> MkWire(items, pls, cut), tag |-> tag,
 \* ---- family "cuts": every cut of the Params payload into <= 4 (list 2), <= 3 (lists 3, 7) or <= 2 records
 CutsFor(i, k) == { cs \in CutSeqs(PLen(i), k) : TRUE }
 FamCuts2 ==
-  UNION { { W(ReqItems(1, 1, 0, i, cs, <<0>>, 0), << PL[i] >>, 0, "cuts", TRUE) : cs \in CutsFor(i, IF i \in {2} THEN 3 ELSE IF i \in {3, 7} THEN 2 ELSE 1) }
-          : i \in {1, 2, 3, 4, 6, 7} }
+  UNION { { W(ReqItems(1, 1, 0, i, cs, <<0>>, 0), << PL[i] >>, 0, "cuts", TRUE) : cs \in CutsFor(i, IF i \in {2} THEN 3 ELSE IF i \in {3, 7, 8, 9} THEN 2 ELSE 1) }
+          : i \in {1, 2, 3, 4, 6, 7, 8, 9} }
 
 \* ---- family "pad": roles x flags x paddings (incl. on BeginRequest and the final record)
 FamPad ==
